@@ -299,6 +299,7 @@ void set_urandom(int mode, uint64_t seed) {
 }
 
 uint64_t urandom_consumed() { return g_urandom_pos; }
+void set_stdio_buffering(size_t mode) { g_world.stdio_buffering = mode; }
 void urandom_open_returns_fd0(bool enable) { g_urandom_fd0_next = enable; }
 void set_urandom_script(const std::vector<int>& script) {
   g_urandom_script = script;
@@ -647,6 +648,8 @@ FILE* fopen_inode(std::shared_ptr<Inode> ino, const char* mode, int* fd_out, boo
   cookie_io_functions_t io = {cookie_read, cookie_write, cookie_seek, cookie_close};
   FILE* f = fopencookie(ck, mode, io);
   if (!f) vsim::harness_bug("fopencookie failed");
+  if (g_world.stdio_buffering == 1) setvbuf(f, nullptr, _IONBF, 0);
+  else if (g_world.stdio_buffering > 1) setvbuf(f, nullptr, _IOFBF, g_world.stdio_buffering);
   return f;
 }
 
